@@ -36,17 +36,27 @@ def parseOp (j : Json) : Option Op :=
     | _, _ => none
   | _ => none
 
+def parseOpX (j : Json) : Option OpX :=
+  match j with
+  | .arr #[Json.str "raise"] => some .raise
+  | _ => (parseOp j).map .base
+
 def outName : Out → String
   | .ok => "ok" | .valueError => "valueError" | .exception => "exception"
 
 def opWiring (j : Json) : Json :=
   match (j.getObjVal? "pins").toOption >>= natsOf, getArr j "ops" with
   | some pins, some ops =>
-    match ops.toList.mapM parseOp with
+    -- optional table of the pins' own name ids (per structure, per pin id): needed by `raise`
+    let names : List (List Nat) := match j.getObjVal? "names" with
+      | .ok (.arr xs) => xs.toList.map fun x => (natsOf x).getD []
+      | _ => []
+    let nameOf : Pin → Nat := fun p => ((names.getD p.1 []).getD p.2 (1000000 + 1000 * p.1 + p.2))
+    match ops.toList.mapM parseOpX with
     | none => errJson "parse"
     | some ops =>
       let (_, outs) := ops.foldl (fun (acc : W × List Json) op =>
-        let (w', out) := step acc.1 op
+        let (w', out) := stepX nameOf acc.1 op
         (w', acc.2 ++ [Json.mkObj [("out", Json.str (outName out)), ("state", stateJson w')]])) (init pins, [])
       Json.mkObj [("steps", Json.arr outs.toArray)]
   | _, _ => errJson "parse"
